@@ -147,6 +147,16 @@ func stateVariants(spec *common.Spec, s *chain.Step, fs *flat.State, rng *rand.R
 		}
 		out = append(out, stateVariant{"pre-state:eth1-votes-full", "eth1_data.votes_list_full", g})
 	}
+	if rng.Intn(3) == 0 && flat.ForkIndex(fs.Fork) >= 1 {
+		// the proposer's balance is (almost) gone while it sits in the sync committee: the order in which the spec
+		// interleaves its proposer rewards with its own participant penalty becomes visible (clipping at zero)
+		g := clone()
+		p := int(s.Proposer)
+		if p < len(g.Balances) {
+			g.Balances[p] = uint64(rng.Intn(3))
+			out = append(out, stateVariant{"pre-state:proposer-balance-near-zero", "valid", g})
+		}
+	}
 	if rng.Intn(4) == 0 && flat.ForkIndex(fs.Fork) >= 3 {
 		// the withdrawal sweep cursor elsewhere: the payload's withdrawals no longer match
 		g := clone()
